@@ -100,6 +100,28 @@ theorem C07_returned_reconstruction_uses_the_loop_settings :
     ReturnsTrueReconstruction Gen.sgdTorchCalls Gen.sgdTorchReturns = true ∧
     ReturnsTrueReconstruction Gen.gsNumpyCalls Gen.gsNumpyReturns = true := by decide
 
+/-- the quantised multi-colour optimiser: the returned reconstruction is the LAST thing computed from the returned phases - the assignment
+    `reconstruction = self.propagator.reconstruct(phases)` comes after the last assignment to the phases (the quantisation statement, which
+    reads `quantize` and the previous phases) and nothing assigns the phases afterwards -/
+def ReconstructsReturnedPhases (assigns : List (String × String × List String × List String)) (rets : List String) : Bool :=
+  match rets with
+  | h :: r :: _ =>
+      let idxs := fun (nm : String) => (List.range assigns.length).filter fun i => (assigns.getD i ("", "", [], [])).1 == nm
+      match (idxs h).getLast?, (idxs r).getLast? with
+      | some ih, some ir =>
+          let a := assigns.getD ir ("", "", [], [])
+          let q := assigns.getD ih ("", "", [], [])
+          decide (ih < ir) && a.2.1 == "self.propagator.reconstruct" && a.2.2.1 == [h] && q.2.2.2.contains "quantize" && q.2.2.2.contains h
+      | _, _ => false
+  | _ => false
+
+theorem C07_multi_color_returns_reconstruction_of_the_quantised_phases :
+    ReconstructsReturnedPhases Gen.mcOptimizeAssigns Gen.mcOptimizeReturns = true := by decide
+
+/-- not vacuous: reconstructing BEFORE the quantisation statement is rejected -/
+example : ReconstructsReturnedPhases
+    [("p", "self.gradient_descent", [], []), ("r", "self.propagator.reconstruct", ["p"], ["p"]), ("p", "", [], ["p", "quantize"])] ["p", "r"] = false := by decide
+
 /-- the predicate is not vacuous: a final call with another propagation type, or one that propagates something else, is rejected -/
 example : ReturnsTrueReconstruction
     [⟨"reconstruction", "hologram", ["k", "distance", "dx", "wavelength", "propagation_type"], true⟩,
